@@ -38,7 +38,6 @@ import (
 const (
 	envChild   = "VERIF_C14_STORE_CHILD"
 	envReexec  = "VERIF_C14_REEXEC"
-	respSzEst  = 1 * datasize.KB
 	nProf      = 3
 	nDev       = 4
 	nIP        = 3
@@ -97,6 +96,8 @@ func main() {
 	if o.Thorough() {
 		h.exhaustiveCampaign()
 	}
+	// Last: the refresh workers the builder starts outlive their cases.
+	h.wiringCampaign()
 
 	r.Finish()
 }
@@ -601,6 +602,11 @@ func (m *syncMetrics) HandleProfilesUpdate(_ context.Context, u *profiledb.Updat
 type errColl struct{ errs []error }
 
 func (c *errColl) Collect(_ context.Context, err error) { c.errs = append(c.errs, err) }
+
+// respSzEst is rate_limit.response_size_estimate of the server under test: the
+// same value must reach the backend converter and the reader of the file cache
+// (the wiring campaign varies it per case).
+var respSzEst = 1 * datasize.KB
 
 type realDB struct {
 	db      *profiledb.Default
@@ -2704,6 +2710,10 @@ func (h *harness) roundTripCampaign() {
 						h.r.Violate("filecache-roundtrip-profile-setting-lost", fmt.Sprintf("profile changed through the file cache:\n stored %s\n loaded %s", a, b),
 							map[string]any{"campaign": "roundtrip", "case": i, "stored": a, "loaded": b, "how": "VerifC14StoreCache then VerifC14LoadCache on this profile"})
 					}
+					if what, bad := h.rlCheck(got.Profiles[k].Ratelimiter, respSzEst, "cache"); bad {
+						h.r.Violate("filecache-roundtrip-ratelimiter-behaviour-differs", "profile read from the file cache: "+what,
+							map[string]any{"campaign": "roundtrip", "case": i, "stored": canonProfile(p), "how": "VerifC14StoreCache then VerifC14LoadCache (response size estimate " + respSzEst.String() + ") on this profile, then CountResponses / Check on its rate limiter"})
+					}
 				}
 				lines = append(authLines, fmt.Sprintf("load %d %d %d", ver, np, nd))
 				// Every address of the cache: what the model says its binary
@@ -2781,6 +2791,9 @@ func (h *harness) roundTripCampaign() {
 						h.r.Violate("restart-lookup-lost", fmt.Sprintf("device %s of profile %d not found after restart: %v", d.ID, owner, err), nil)
 					} else if canonDevice(d2) != canonDevice(got.Devices[k]) || canonProfile(p2) != canonProfile(got.Profiles[owner]) {
 						h.r.Violate("restart-lookup-differs", "look-up after restart returns other settings than the cache holds", nil)
+					} else if what, bad := h.rlCheck(p2.Ratelimiter, respSzEst, "cache:restart"); bad {
+						h.r.Violate("restart-ratelimiter-behaviour-differs", "profile returned by a look-up after a restart from the cache (profiledb.New with ResponseSizeEstimate "+respSzEst.String()+"): "+what,
+							map[string]any{"campaign": "roundtrip", "case": i, "stored": canonProfile(c.Profiles[owner]), "how": "VerifC14StoreCache, profiledb.New on the file, ProfileByDeviceID, then CountResponses / Check on the profile's rate limiter"})
 					}
 					// The same through the three other indexes, by the keys the
 					// device had when the cache was written.
